@@ -507,6 +507,14 @@ CHECKS["C05"]["text"] += " A further deterministic family uses providers whose c
 CHECKS["C18"]["text"] += (" Deterministic restart schedules of the notification service (stop without finality while idle / while a handler runs, "
                           "then start again, notifications raised before, while stopped and after) are checked against the delivery law.")
 
+# ---- families added in seeded-change round 7
+CHECKS["C03"]["text"] += (" Further seeded family: case_only_rename (renames that change only the letter case, at least one side a "
+                          "case-insensitive, case-preserving provider; the mirror must show the new spelling).")
+CHECKS["C05"]["text"] += (" Family path_style: providers whose object ids are paths on one side or both, with long systematic schedules in "
+                          "which the sync step runs repeatedly before the losing side's own rename event is taken in.")
+CHECKS["C06"]["text"] += (" Family restarts_fallback_rename: synchronised objects renamed (fresh name, other folder, letter case only) while the "
+                          "engine is down and the cursor lost; with stable ids the fallback walk must carry the rename to the other side.")
+
 ALL = ["C%02d" % i for i in range(1, 21)]
 
 
